@@ -62,9 +62,9 @@ CLAIMED = {
           "Machine-checked invariant over all schedules of the process/file machine; the machine is tied to the real function by replaying generated schedules (threads, module-global interposition, real file system) and comparing per-process outcome and final file; the property is also evaluated directly on the real outcomes.",
           "File-system semantics (atomic no-overwrite link, private mkstemp names, loss of unflushed data) trusted. Secrecy clause: syntactic + byte scan only (partial).",
           "DESIGN.md §5 C06"),
-  "C07": ("Lean 4 theorems: well-formed plans cover every column once, the composed build_table returns exactly the plan's columns, the whole default-strategy synthesis in the model ends with a well-formed plan and exactly the input's columns; nulls only from the null range, strings are value-map entries or prefix*index, one row per unit; from the typed input table for one cluster: one cell per input column, each a null or a value of the column's type, strings input strings or masks (C07_synthesize_single_domains), and the same for any cluster plan through build_table (C07_table_domains, C07_synthesize_plan_domains); schema of the default-strategy synthesis with sub-sampling (clustering/sampling.py inside the model: C07_sampleDefaultSampled_schema) + value-exact correspondence of the composed model of sample() (one cluster; all clusters with stitching; the default strategy with measures and plan search, with and without sub-sampling) with the real Synthesizer + sample() run on generated tables of every type under every strategy with schema/dtype/domain checks",
+  "C07": ("Lean 4 theorems: well-formed plans cover every column once, the composed build_table returns exactly the plan's columns, the whole default-strategy synthesis in the model ends with a well-formed plan and exactly the input's columns; nulls only from the null range, strings are value-map entries or prefix*index, one row per unit; from the typed input table for one cluster: one cell per input column, each a null or a value of the column's type, strings input strings or masks (C07_synthesize_single_domains), and the same for any cluster plan through build_table (C07_table_domains, C07_synthesize_plan_domains); schema of the default-strategy synthesis with sub-sampling (clustering/sampling.py inside the model: C07_sampleDefaultSampled_schema); nulls only where there were nulls: from the typed table for per-column patching (C07_synthesize_noClustering_no_nulls), for clusters of several columns only for columns without folded outliers (C07_no_nulls_partial) + value-exact correspondence of the composed model of sample() (one cluster; all clusters with stitching; the default strategy with measures and plan search, with and without sub-sampling) with the real Synthesizer + sample() run on generated tables of every type under every strategy with schema/dtype/domain checks",
           "Proof of the schema and domain clauses of the composed model for all inputs; the composed model reproduces sample() value for value; pandas astype / scikit-learn are exercised end to end on every run. That the run completes is not a theorem.",
-          "pandas/scikit-learn outside the model. Known findings: RecursionError for float values closer than ~2^-900 of the column range (F10); ValueError when a cluster's microtable is empty while the table so far is not (F14, found by the thorough tier).",
+          "pandas/scikit-learn outside the model. The null clause for clusters of several columns is partial (hypothesis: no value beyond the column's final root range). Known findings: RecursionError for float values closer than ~2^-900 of the column range (F10); ValueError when a cluster's microtable is empty while the table so far is not (F14, found by the thorough tier).",
           "DESIGN.md §5 C07"),
   "C14": ("Lean 4 theorems (matrix symmetric with unit diagonal for every forest, every score in [0,1], weighted mean in [0,1], entropy >= 0 when released shares are <= 1) + bit-exact correspondence of measure_all (entropies and dependency matrix, joint walk incl. singular branches and folded outliers) + bounds and ranking claims evaluated on real forests",
           "Machine-checked proof of the bounded/symmetric clauses for all inputs over exact arithmetic; measures.py modelled and compared bit for bit (log2 from the same libm); the statistical ranking clauses are NOT proved - they are evaluated on seeded tables and reported as support; gross deviations are reported as failures.",
@@ -72,7 +72,7 @@ CLAIMED = {
           "DESIGN.md §5 C14"),
   "C08": ("Lean 4 theorems: released count of N rows within 17*sd+1/2 of N, large groups pass, noise off => hard floor only, rescaling loses at most one unit, one row per unit, patch keeps the left count, every forest tree holds every row exactly once, and composed end to end for one cluster from the typed input table (convertor fitting, normalisation, forest, harvest, microdata): N-1-(17 sd+1/2) <= rows <= N+17 sd+1/2, empty only below low_threshold+(gap+8.5) layer_sd (C08_synthesize_single_rows; the traversal budgets see whole trees: SdxProofs/Height), and through build_table for per-column patching and left-owned stitching (C08_patched_table_rows, C08_synthesize_noClustering_rows from the typed table) + bit-exact correspondence of trees/harvest and of the composed one-cluster sample from the typed table (S-sampleRaw) + len(sample()) checked against the bound on generated tables and on sequences of syntheses under changing noise levels",
           "Machine-checked proof of the row-count clause as one theorem from the typed input table to the list of synthetic rows for one cluster (one non-null id per row, exact arithmetic, deviates bounded by 8.5); across clusters the chain is the stitching theorems (C12); evaluated on every real table.",
-          "Double-precision libm not covered by the real-number bound.",
+          "Double-precision libm not covered by the real-number bound. Known finding F20: at low_threshold = 1 the table can be empty above the bound (the theorems assume low_threshold >= 2).",
           "DESIGN.md §5 C08"),
   "C09": ("Lean 4 theorems: a singular node releases its exact values, a draw from a single-point range is that point, rescaling by ratio 1 is the identity, the null range decodes to null, a leaf of a forest tree holds all rows of each value combination it holds; decoding inverts encoding for the convertors fitted on any column (the MinMaxScaler fit has a positive scale and inverse(transform x) = x, integers / whole-second timestamps / booleans decode to the original value from a single-point range for every RNG state, the string value map is strictly sorted, holds exactly the column's strings and value_map[code(x)] = x) + the fitted coefficients, round precision and value map and every cell of sample() from the typed table compared exactly with the implementation (S-sampleRaw) + multiset equality of sample() and input on generated well-populated tables",
           "Proof of the model-level facts incl. the encode/decode round trip of every column kind over exact arithmetic; exact reproduction itself is checked on every generated well-populated table; numeric decoding in doubles (scaler, round) is pinned bit for bit by the composed stream from the typed table.",
